@@ -193,7 +193,8 @@ def materialise(recipe):
 # ------------------------------------------------------------------ generators (pure functions of a Chooser)
 
 WS_TEXTS = ['', ' ', '\n', ' \t\r\n\f', '\n  ']
-WORD_TEXTS = ['x', 'x y', 'abc', ' a ', 'a\nb']
+# the last five are white space to Python's \s / str.isspace() but not to CSS: they count as content
+WORD_TEXTS = ['x', 'x y', 'abc', ' a ', 'a\nb', '\xa0', '\u2003', '\x0b', ' \x1f\n', '\u3000\n']
 
 
 def string_node(ch, kinds=('t', 'c'), texts=None):
